@@ -61,6 +61,10 @@ pub struct Case {
     pub raw: RawCreate,
     /// change the creation fee before the attempt (amount, denom index)
     pub new_fee: Option<(u32, u8)>,
+    /// the pool manager already holds coins of every denom (sent to it outside pool operations):
+    /// an under-paid creation could then be completed out of the contract's own balance
+    #[serde(default)]
+    pub contract_has_funds: bool,
 }
 
 fn fee_val() -> impl Strategy<Value = u64> {
@@ -120,9 +124,10 @@ pub fn case_strat() -> impl Strategy<Value = Case> {
                 1 => (0u8..3).prop_map(FundsSpec::Half),
             ],
         ),
-        proptest::option::weighted(0.3, (0u32..5000, 0u8..6)),
+        proptest::option::weighted(0.35, (prop_oneof![1 => Just(0u32), 4 => 0u32..5000], 0u8..6)),
+        proptest::bool::weighted(0.5),
     )
-        .prop_map(|(cfg, before, (user, assets, decimals_len, protocol, swap, burn, extra, amp, id, funds), new_fee)| Case {
+        .prop_map(|(cfg, before, (user, assets, decimals_len, protocol, swap, burn, extra, amp, id, funds), new_fee, contract_has_funds)| Case {
             cfg,
             before,
             raw: {
@@ -133,6 +138,7 @@ pub fn case_strat() -> impl Strategy<Value = Case> {
                 RawCreate { user, assets, decimals_len, protocol, swap, burn, extra, amp, id, funds }
             },
             new_fee,
+            contract_has_funds,
         })
 }
 
@@ -163,6 +169,16 @@ impl Engine for Creation {
         }
         if let Some((amount, denom)) = c.new_fee {
             sim.step(&POp::SetCreationFee { amount, denom });
+        }
+        if c.contract_has_funds {
+            let donor = sim.user(3);
+            let pmaddr = sim.w.pool_manager.clone();
+            let coins: Vec<Coin> = BASE_DENOMS.iter().map(|d| coin(1_000_000, *d)).collect();
+            let mut coins = coins;
+            coins.sort_by(|a, b| a.denom.cmp(&b.denom));
+            if sim.w.bank_send(&donor, &pmaddr, &coins).is_ok() {
+                st.bump("creation attempts while the pool manager holds coins of its own");
+            }
         }
         let r = &c.raw;
         let sender = sim.user(r.user);
